@@ -131,8 +131,131 @@ def build_module(seed):
     return Gen
 
 
+def build_notation_module(seed, mode):
+    """a theory that shares stack terms (bot(), neg(...), implications) with Propositional but has its OWN notation
+    table: mode 'none' registers no notation, 'own' registers notations with other names/formats for the same
+    definitions, 'partial' registers only neg.  Proof thunks are borrowed from an un-imported Propositional()."""
+    from proof_generation.pattern import App, Implies, MetaVar, Mu, Notation, SVar, Symbol, bot, neg, phi0, top
+    from proof_generation.proof import ProofExp
+    from proof_generation.proofs.propositional import Propositional
+
+    rng = random.Random(f'c18not:{seed}')
+    syms = [Symbol('n' + str(rng.randint(0, 99))) for _ in range(3)]
+    falsum = Notation('falsum', 0, Mu(0, SVar(0)), 'FALSE')
+    nicht = Notation('nicht', 1, Implies(MetaVar(0), bot()), 'NOT({0})')
+    verum = Notation('verum', 0, neg(bot()), 'TRUE')
+    tables = {'none': [], 'own': [falsum, nicht, verum], 'partial': [neg]}
+
+    def rpat(depth):
+        r = rng.random()
+        if depth <= 0 or r < 0.35:
+            return rng.choice([bot(), phi0, neg(phi0), top(), rng.choice(syms), neg(rng.choice(syms))])
+        if r < 0.7:
+            return Implies(rpat(depth - 1), rpat(depth - 1))
+        if r < 0.85:
+            return neg(rpat(depth - 1))
+        return App(rng.choice(syms), rpat(depth - 1))
+
+    class NotMod(ProofExp):
+        def __init__(self):
+            super().__init__(axioms=[bot(), neg(phi0), Implies(bot(), phi0)], notations=list(tables[mode]), claims=[neg(phi0)])
+            self.add_proof_expression(self.load_axiom(neg(phi0)))
+            prop = Propositional()
+            for _ in range(rng.randint(1, 3)):
+                k = rng.choice(['mp', 'refl', 'absurd'])
+                if k == 'mp':
+                    a, b = rpat(2), rpat(2)
+                    if b in self._claims:
+                        continue
+                    self.add_axioms([a, Implies(a, b)])
+                    self._claims.append(b)
+                    self._proof_expressions.append(self.modus_ponens(self.load_axiom(Implies(a, b)), self.load_axiom(a)))
+                elif k == 'refl':
+                    p = rpat(2)
+                    if Implies(p, p) in self._claims:
+                        continue
+                    self._claims.append(Implies(p, p))
+                    self._proof_expressions.append(prop.imp_refl(p))
+                else:
+                    pf = prop.bot_elim(rpat(2))
+                    if pf.conc in self._claims:
+                        continue
+                    self._claims.append(pf.conc)
+                    self._proof_expressions.append(pf)
+
+    return NotMod
+
+
+def build_incremental(seed):
+    """a module that can be extended after it has been serialised: extend(k) brings it to k claims"""
+    from proof_generation.pattern import App, Implies, Symbol
+    from proof_generation.proof import ProofExp
+
+    class Inc(ProofExp):
+        def __init__(self, n):
+            super().__init__(axioms=[Implies(Symbol('a'), Symbol('a'))])
+            self.n = 0
+            self.rng = random.Random(f'c18inc:{seed}')
+            self.f = Symbol('f' + str(seed % 7))
+            self.extend(n)
+
+        def extend(self, n):
+            for i in range(self.n, n):
+                # the random draws depend on i only through the sequence, identical for every way of reaching n
+                depth = self.rng.randint(1, 2)
+                t = App(self.f, Symbol(f'c{i}'))
+                for _ in range(depth):
+                    t = App(t, t)
+                if i % 3 == 2:
+                    ax = Implies(t, Symbol('a'))
+                    self.add_axiom(ax)
+                    self.add_claim(ax)
+                    self.add_proof_expression(self.load_axiom(ax))
+                else:
+                    self.add_claim(Implies(t, Implies(t, t)))
+                    self.add_proof_expression(self.dynamic_inst(self.prop1(), {0: t, 1: t}))
+            self.n = n
+
+    return Inc
+
+
+def job_incr(job, out):
+    """serialise -> mutate -> serialise on ONE object ('incremental'), the untouched object twice ('twice'), or a fresh
+    object with the final content ('fresh'): the files written last must be the same in all three"""
+    from pathlib import Path
+
+    from proof_generation.proof import OutputFormat
+
+    d = fresh(os.path.join(out, 'w'))
+    d0 = fresh(os.path.join(out, 'w0'))
+    cls = build_incremental(job['seed'])
+    n1, n2 = job['n1'], job['n2']
+    with redirect_stdout(io.StringIO()):
+        if job['mode'] == 'fresh':
+            m = cls(n2)
+        elif job['mode'] == 'twice':
+            m = cls(n2)
+            m.serialize(Path(d0) / 'x', OutputFormat.Binary, True)
+            m.serialize(Path(d0) / 'x', OutputFormat.Pretty, True)
+        else:
+            m = cls(n1)
+            m.serialize(Path(d0) / 'x', OutputFormat.Binary, True)
+            m.serialize(Path(d0) / 'x', OutputFormat.Pretty, True)
+            m.extend(n2)
+        m.serialize(Path(d) / 'x', OutputFormat.Binary, True)
+        m.serialize(Path(d) / 'x', OutputFormat.Pretty, True)
+    return sha_dir(d)
+
+
 def job_gen(job, out):
     d = fresh(os.path.join(out, 'w'))
+    if job.get('notations'):
+        cls = build_notation_module(job['seed'], job['notations'])
+        name = 'not%d' % job['seed']
+        with redirect_stdout(io.StringIO()):
+            cls().main(['', 'binary', d, name, '--optimize'])
+            cls().main(['', 'pretty', d, name])
+        return sha_dir(d)
     cls = build_module(job['seed'])
     name = 'gen%d' % job['seed']
     with redirect_stdout(io.StringIO()):
@@ -269,6 +392,8 @@ def main():
                 r = job_shipped(job, out)
             elif t == 'gen':
                 r = job_gen(job, out)
+            elif t == 'incr':
+                r = job_incr(job, out)
             elif t == 'mm':
                 r = job_mm(job, out)
             elif t == 'finalize':
